@@ -435,3 +435,189 @@ Proof.
   pose proof (mul_bound_nn (sw (r_bl c)) size 1024 1024). pose proof (mul_bound_nn (sh (r_bl c)) size 1024 1024).
   sites; zb; rng.
 Qed.
+
+(* =========================================================================================== *)
+(* Line: delta, perpendicular, Bresenham parameters, the Points loop                             *)
+(* =========================================================================================== *)
+Definition lbound (C : Z) (l : line) : Prop := pbound C (l_start l) /\ pbound C (l_end l).
+Lemma ds_lbound l : ds_line l -> lbound 1024 l.
+Proof. unf_ds. unfold lbound, pbound. tauto. Qed.
+Lemma edge_lbound l : edge_line l -> lbound 1280 l.
+Proof. unf_ds. unfold lbound, pbound. tauto. Qed.
+
+Lemma line_delta_total C l : 0 <= C <= 1073741823 -> lbound C l -> line_delta_ok l = true /\ pbound (2 * C) (line_delta l).
+Proof.
+  unfold lbound, pbound, line_delta_ok, line_delta, point_sub_ok, psub. intros ? [[? ?] [? ?]]. cbn [px py].
+  split; [ sites; rng | lia ].
+Qed.
+Lemma perpendicular_total C l : 0 <= C <= 500000000 -> lbound C l ->
+  perpendicular_ok l = true /\ lbound (3 * C) (perpendicular l).
+Proof.
+  intros HC Hl. destruct (line_delta_total C l ltac:(lia) Hl) as [Hd [? ?]].
+  unfold perpendicular_ok, perpendicular. cbv zeta. rewrite Hd.
+  revert Hl. unfold lbound, pbound, point_add_ok, padd. intros [[? ?] [? ?]]. cbn [px py l_start l_end andb].
+  split; [ sites; rng | lia ].
+Qed.
+
+(* facts about BresenhamParameters::new *)
+Definition unit_step (q : point) : Prop := -1 <= px q <= 1 /\ -1 <= py q <= 1.
+Definition bp_ok (B : Z) (p : bparams) : Prop :=
+  0 <= error_threshold p <= B /\ 0 <= error_step_major p <= error_step_minor p /\
+  error_step_minor p = 2 * error_threshold p /\ unit_step (pos_step_major p) /\ unit_step (pos_step_minor p).
+Lemma bparams_new_total C l : 0 <= C <= 268435455 -> lbound C l ->
+  bparams_new_ok l = true /\ bp_ok (2 * C) (bparams_new l).
+Proof.
+  intros HC Hl. destruct (line_delta_total C l ltac:(lia) Hl) as [Hd [? ?]].
+  unfold bparams_new_ok. rewrite Hd. unfold point_abs_ok, bp_ok, unit_step, bparams_new. fold (line_delta l).
+  destruct (0 <=? px (line_delta l)); destruct (0 <=? py (line_delta l));
+  destruct (Z.abs (px (line_delta l)) <=? Z.abs (py (line_delta l))) eqn:E; zb;
+  cbn [error_threshold error_step_major error_step_minor pos_step_major pos_step_minor px py andb];
+  (split; [ sites; rng | lia ]).
+Qed.
+Lemma major_length_total C l : 0 <= C <= 268435455 -> lbound C l ->
+  major_length_ok l = true /\ 1 <= major_length l <= 2 * C + 1.
+Proof.
+  intros HC Hl. destruct (line_delta_total C l ltac:(lia) Hl) as [Hd [? ?]].
+  unfold major_length_ok. rewrite Hd. unfold point_abs_ok, major_length. fold (line_delta l). cbn [andb].
+  split; [ sites; rng | lia ].
+Qed.
+
+(* one Bresenham::next step: sites safe, invariant preserved, the point moves by at most one per axis and call *)
+Definition berr_inv (p : bparams) (e : Z) : Prop := - error_threshold p <= e <= error_threshold p + error_step_major p.
+Lemma bnext_step B C p s : 0 <= B <= 268435455 -> 0 <= C <= 1073741823 -> bp_ok B p ->
+  pbound C (b_point s) -> berr_inv p (b_error s) ->
+  bnext_ok p s = true /\ pbound (C + 2) (b_point (snd (bnext p s))) /\ berr_inv p (b_error (snd (bnext p s))).
+Proof.
+  unfold bp_ok, unit_step, pbound, berr_inv. intros ? ? [? [? [? [[? ?] [? ?]]]]] [? ?] ?.
+  unfold bnext_ok, bnext, point_add_ok, padd.
+  destruct (error_threshold p <? b_error s) eqn:E; zb; cbn [fst snd b_point b_error px py];
+  (split; [ sites; rng | lia ]).
+Qed.
+Lemma bresenham_run_total B p : 0 <= B <= 268435455 -> bp_ok B p ->
+  forall n s C, 0 <= C -> C + 2 * Z.of_nat n <= 1073741823 -> pbound C (b_point s) -> berr_inv p (b_error s) ->
+  bresenham_run_ok p s n = true.
+Proof.
+  intros HB Hp. induction n as [|n IH]; intros s C HC Hn Hs He; cbn [bresenham_run_ok]; [reflexivity|].
+  destruct (bnext_step B C p s HB ltac:(lia) Hp Hs He) as [Hok [Hs' He']].
+  rewrite Hok. cbn [andb]. apply (IH _ (C + 2)); try assumption; lia.
+Qed.
+Lemma line_points_total l : ds_line l -> line_points_ok l = true.
+Proof.
+  intros Hl. pose proof (ds_lbound l Hl) as Hb.
+  destruct (major_length_total 1024 l ltac:(lia) Hb) as [Hm ?].
+  destruct (bparams_new_total 1024 l ltac:(lia) Hb) as [Hp Hbp].
+  unfold line_points_ok. rewrite Hm, Hp. cbn [andb].
+  apply (bresenham_run_total 2048 _ ltac:(lia) Hbp _ _ 1024); cbn [b_point b_error].
+  - lia.
+  - rewrite Z2Nat.id by lia. lia.
+  - apply Hb.
+  - destruct Hbp as [? [? ?]]. unfold berr_inv. lia.
+Qed.
+(* explicit step bound of the loop *)
+Lemma line_points_steps_bound l : ds_line l -> 1 <= line_points_steps l <= 2049.
+Proof. intros Hl. destruct (major_length_total 1024 l ltac:(lia) (ds_lbound l Hl)). unfold line_points_steps. lia. Qed.
+Lemma line_points_length l : length (line_points l) = Z.to_nat (line_points_steps l).
+Proof.
+  unfold line_points, line_points_steps. generalize (Z.to_nat (major_length l)) (BS (l_start l) 0) (bparams_new l).
+  induction n as [|n IH]; intros s p; cbn [bresenham_run]; [reflexivity|].
+  destruct (bnext p s). cbn [length]. rewrite IH. reflexivity.
+Qed.
+
+(* error updates of the parallel lines, next_all / previous_all: per-step safety + invariant *)
+Definition perr_inv (p : bparams) (e : Z) : Prop := - error_threshold p <= e <= error_threshold p.
+Lemma increase_error_total B p e : 0 <= B <= 268435455 -> bp_ok B p -> perr_inv p e ->
+  increase_error_ok p e = true /\ perr_inv p (increase_error p e).
+Proof.
+  unfold bp_ok, perr_inv, increase_error_ok, increase_error. intros ? [? [? [? _]]] ?. cbv zeta.
+  destruct (error_threshold p <? e + error_step_major p) eqn:E; zb; (split; [ sites; rng | lia ]).
+Qed.
+Lemma decrease_error_total B p e : 0 <= B <= 268435455 -> bp_ok B p -> perr_inv p e ->
+  decrease_error_ok p e = true /\ perr_inv p (decrease_error p e).
+Proof.
+  unfold bp_ok, perr_inv, decrease_error_ok, decrease_error. intros ? [? [? [? _]]] ?. cbv zeta.
+  destruct (e - error_step_major p <=? - error_threshold p) eqn:E; zb; (split; [ sites; rng | lia ]).
+Qed.
+Definition aerr_inv (p : bparams) (e : Z) : Prop :=
+  - (error_threshold p + error_step_major p) <= e <= error_threshold p + error_step_major p.
+Lemma next_all_total B C p s : 0 <= B <= 268435455 -> 0 <= C <= 1073741823 -> bp_ok B p ->
+  pbound C (b_point s) -> aerr_inv p (b_error s) ->
+  next_all_ok p s = true /\ pbound (C + 1) (b_point (next_all p s)) /\ aerr_inv p (b_error (next_all p s)).
+Proof.
+  unfold bp_ok, unit_step, pbound, aerr_inv. intros ? ? [? [? [? [[? ?] [? ?]]]]] [? ?] ?.
+  unfold next_all_ok, next_all, point_add_ok, point_sub_ok, padd.
+  destruct (error_threshold p <? b_error s) eqn:E; zb; cbn [b_point b_error px py];
+  (split; [ sites; rng | lia ]).
+Qed.
+Lemma previous_all_total B C p s : 0 <= B <= 268435455 -> 0 <= C <= 1073741823 -> bp_ok B p ->
+  pbound C (b_point s) -> aerr_inv p (b_error s) ->
+  previous_all_ok p s = true /\ pbound (C + 1) (b_point (previous_all p s)) /\ aerr_inv p (b_error (previous_all p s)).
+Proof.
+  unfold bp_ok, unit_step, pbound, aerr_inv. intros ? ? [? [? [? [[? ?] [? ?]]]]] [? ?] ?.
+  unfold previous_all_ok, previous_all, point_add_ok, point_sub_ok, psub.
+  destruct (b_error s <=? - error_threshold p) eqn:E; zb; cbn [b_point b_error px py];
+  (split; [ sites; rng | lia ]).
+Qed.
+
+(* =========================================================================================== *)
+(* Thick lines                                                                                   *)
+(* =========================================================================================== *)
+Lemma thick_line_used_ds l0 : ds_line l0 -> ds_line (thick_line_used l0).
+Proof.
+  intros. unfold thick_line_used. destruct (point_eqb _ _); [ | assumption ].
+  unf_ds. unfold horizontal_line. cbn. lia.
+Qed.
+Lemma thickness_threshold_bound l0 t : ds_line l0 -> 0 <= t <= 128 -> 0 <= thickness_threshold l0 t <= 549755813888.
+Proof.
+  intros Hl Ht. pose proof (thick_line_used_ds l0 Hl) as Hu.
+  destruct (line_delta_total 1024 _ ltac:(lia) (ds_lbound _ Hu)) as [_ Hd].
+  pose proof (length_squared_bound 2048 _ ltac:(lia) Hd).
+  unfold thickness_threshold. pose proof (mul_bound_nn (t * 2) (t * 2) 256 256).
+  pose proof (mul_bound_nn (t * 2 * (t * 2)) (length_squared (line_delta (thick_line_used l0))) (256 * 256) (2 * (2048 * 2048))).
+  lia.
+Qed.
+Lemma parallels_new_total l0 t : ds_line l0 -> 0 <= t <= 128 -> parallels_new_ok l0 t = true.
+Proof.
+  intros Hl Ht. pose proof (thick_line_used_ds l0 Hl) as Hu. pose proof (ds_lbound _ Hu) as Hb.
+  pose proof (thickness_threshold_bound l0 t Hl Ht) as Hthr.
+  unfold parallels_new_ok. cbv zeta. set (l := thick_line_used l0) in *.
+  destruct (bparams_new_total 1024 l ltac:(lia) Hb) as [-> Hbp].
+  destruct (perpendicular_total 1024 l ltac:(lia) Hb) as [-> Hperp].
+  destruct (bparams_new_total 3072 _ ltac:(lia) Hperp) as [-> Hbpp].
+  destruct (line_delta_total 1024 l ltac:(lia) Hb) as [-> Hd].
+  rewrite (length_squared_total 2048) by (assumption || lia).
+  pose proof (mul_bound_nn (t * 2) (t * 2) 256 256).
+  destruct (next_all_total 6144 1024 (bparams_new (perpendicular l)) (BS (l_start l0) 0)) as [-> _];
+    try lia; try assumption.
+  { apply (ds_lbound _ Hl). }
+  { destruct Hbpp as [? [? ?]]. unfold aerr_inv. cbn [b_error]. lia. }
+  destruct Hbp as [? [? [? [[? ?] [? ?]]]]].
+  unfold point_neg_ok. cbn [andb]. sites; rng.
+Qed.
+Lemma thick_points_new_total l0 t : ds_line l0 -> 0 <= t <= 128 -> thick_points_new_ok l0 t = true.
+Proof.
+  intros Hl Ht. unfold thick_points_new_ok. rewrite (parallels_new_total l0 t Hl Ht).
+  destruct (major_length_total 1024 l0 ltac:(lia) (ds_lbound _ Hl)) as [-> _]. reflexivity.
+Qed.
+Lemma styled_line_new_total l0 w : ds_line l0 -> ds_width w -> styled_line_new_ok l0 w = true.
+Proof.
+  intros Hl Hw. unfold styled_line_new_ok. apply thick_points_new_total; [assumption|].
+  revert Hw. unf_ds. unf_sat. lia.
+Qed.
+(* ParallelsIterator::next: acc stays below 2^20 + 2^13 while acc^2 <= threshold <= 2^39 *)
+Definition acc_inv (acc : Z) : Prop := 0 <= acc <= 1056768.
+Lemma parallels_next_total acc thr step : acc_inv acc -> 0 <= thr <= 549755813888 -> 0 <= step <= 8192 ->
+  parallels_next_ok acc thr step = true /\ (acc * acc <= thr -> acc_inv (acc + step)).
+Proof.
+  unfold acc_inv, parallels_next_ok. intros ? ? ?. pose proof (mul_bound_nn acc acc 1056768 1056768).
+  split.
+  - sites; rng.
+  - intros. assert (acc <= 1048576) by nia. lia.
+Qed.
+Lemma thickness_accumulator0_inv l0 : ds_line l0 -> acc_inv (thickness_accumulator0 l0).
+Proof.
+  intros Hl. pose proof (thick_line_used_ds l0 Hl) as Hu.
+  destruct (bparams_new_total 1024 _ ltac:(lia) (ds_lbound _ Hu)) as [_ [? [? [? _]]]].
+  unfold thickness_accumulator0, acc_inv. cbv zeta. lia.
+Qed.
+Lemma thick_points_next_total len : 1 <= len <= 4294967295 -> thick_points_next_ok len = true.
+Proof. intros. unfold thick_points_next_ok. rng. Qed.
